@@ -112,6 +112,24 @@ class Check:
                   open(os.path.join(d, 'counterexample.json'), 'w'), indent=1, default=str)
         for fn, content in (replay_files or {}).items():
             open(os.path.join(d, fn), 'w').write(content)
+        # replay.sh: the native test when the check generated one (exit 1 = the violation reproduces on the real code), else the check itself
+        tests = [fn for fn in (replay_files or {}) if fn.endswith('_test.go')]
+        sh = '#!/bin/sh\n# replay of ' + self.pid + ' / ' + obligation + ' @ ' + site + '\n'
+        if tests:
+            import re as _re
+            src = (replay_files or {})[tests[0]]; m_ = _re.search(r'^func (Test\w+)\(', src, _re.M); pk = _re.search(r'^package (\w+)', src, _re.M)
+            pkgdir = {'main': 'cmd/keymasterd', 'certgen': 'lib/certgen', 'eventrecorder': 'eventmon/eventrecorder', 'ldap': 'lib/pwauth/ldap'}.get(pk.group(1) if pk else 'main', 'cmd/keymasterd')
+            ovj = os.path.join(d, 'overlay.json')
+            rep = {os.path.join(build.REPO, pkgdir, tests[0]): os.path.join(d, tests[0])}
+            if 'zzVerifSaveHook' in src:
+                from . import replay as _rp
+                for virt, content in (_rp.storage_with_save_hook() or {}).items():
+                    rp_ = os.path.join(d, 'overlay_' + os.path.basename(virt)); open(rp_, 'w').write(content); rep[virt] = rp_
+            json.dump({'Replace': rep}, open(ovj, 'w'))
+            sh += f"# exit status 1 (test FAIL) = the violation reproduces on the real code\ncd {build.REPO} && GOFLAGS=-mod=mod GOPROXY=off go test -vet=off -count=1 -overlay {ovj} -run '^{m_.group(1) if m_ else 'Test'}$' ./{pkgdir}/\n"
+        else:
+            sh += f"# no native test for this obligation: re-run the check (exit 1 + VIOLATION line = still violated)\ncd {VERIF} && ./run {self.pid} {self.tier}\n"
+        open(os.path.join(d, 'replay.sh'), 'w').write(sh); os.chmod(os.path.join(d, 'replay.sh'), 0o755)
         self.violations.append({'obligation': obligation, 'site': site, 'what': what, 'model': model, 'replay': d, 'confirmed': confirmed})
         return 'new'
 
